@@ -504,6 +504,9 @@ func TestVerifC05Corrupt(t *testing.T) {
 			if _, ok := pv.(vhook.BudgetExceeded); ok {
 				what = "unbounded loop (step or system-call budget exceeded)"
 			}
+			if _, ok := pv.(vhook.Deadlock); ok {
+				what = "deadlock (the call would never return)"
+			}
 			t.Fatalf("%s: %s while using a counter file damaged at rest: %v\n%s", desc, what, pv, stack)
 		}
 		opened := f2.current.Load() != nil
@@ -584,6 +587,9 @@ func TestVerifC05LimitWrap(t *testing.T) {
 			what := "panic"
 			if _, ok := pv.(vhook.BudgetExceeded); ok {
 				what = "unbounded loop (step or system-call budget exceeded)"
+			}
+			if _, ok := pv.(vhook.Deadlock); ok {
+				what = "deadlock (the call would never return)"
 			}
 			t.Fatalf("allocation limit damaged to %#x: %s while adding a new counter: %v\n%s", limit, what, pv, stack)
 		}
